@@ -180,6 +180,87 @@ theorem source_address_enforced (cfg : Cfg) (reads : List Read) (evs : List Ev) 
     exact (saOk_spec cfg pk').mp b
   · exact Or.inr ⟨pre, r, post, h1, hm⟩
 
+/-! ## Go's list walk against OpenSSH's `addr_match_cidr_list` -/
+
+theorem osshWalk_accept_iff (ret : OsshRes) (es : List Ossh) :
+    osshWalk ret es = .accept ↔ (∀ e ∈ es, e ≠ .invalid) ∧ (ret = .accept ∨ .matches ∈ es) := by
+  induction es generalizing ret with
+  | nil => simp [osshWalk]
+  | cons e es ih =>
+    cases e
+    · simp [osshWalk, ih]
+    · simp only [osshWalk, ih]
+      constructor
+      · rintro ⟨h1, h2⟩
+        exact ⟨by simpa using h1, by rcases h2 with h | h <;> simp [h]⟩
+      · rintro ⟨h1, h2⟩
+        refine ⟨fun e he => h1 e (by simp [he]), ?_⟩
+        rcases h2 with h | h
+        · exact Or.inl h
+        · simp at h; exact Or.inr h
+    · simp [osshWalk]
+
+/-- **OpenSSH accepts** iff every entry is valid and some entry matches -/
+theorem ossh_accepts_iff (es : List Ossh) :
+    osshList es = .accept ↔ (∀ e ∈ es, e ≠ .invalid) ∧ .matches ∈ es := by
+  simp [osshList, osshWalk_accept_iff]
+
+/-- **Go accepts** (given a TCP peer) iff some entry matches and no entry BEFORE it is unparsable -/
+theorem go_accepts_iff (es : List SAEntry) :
+    matchEntries es = true ↔ ∃ pre x post, es = pre ++ x :: post ∧ isMatch x = true ∧ ∀ y ∈ pre, y ≠ .bad :=
+  matchEntries_spec es
+
+/-- whenever the entry-level verdicts agree, everything OpenSSH accepts Go accepts -/
+theorem ossh_accept_imp_go (es : List Entry2) (hag : ∀ e ∈ es, e.agree = true)
+    (h : osshList (es.map (·.ossh)) = .accept) : matchEntries (es.map (·.go)) = true := by
+  rw [ossh_accepts_iff] at h
+  obtain ⟨hvalid, hm⟩ := h
+  rw [List.mem_map] at hm
+  obtain ⟨e, he, hem⟩ := hm
+  obtain ⟨pre, post, rfl⟩ := List.append_of_mem he
+  rw [matchEntries_spec]
+  refine ⟨pre.map (·.go), e.go, post.map (·.go), by simp, ?_, ?_⟩
+  · have := hag e (by simp)
+    simp [Entry2.agree, hem] at this
+    exact this.1
+  · intro y hy
+    rw [List.mem_map] at hy
+    obtain ⟨e', he', rfl⟩ := hy
+    have hag' := hag e' (by simp [he'])
+    have hv := hvalid e'.ossh (by simp; exact Or.inl ⟨e', he', rfl⟩)
+    simp [Entry2.agree] at hag'
+    intro hb
+    have h2 := hag'.2
+    simp [hb] at h2
+    exact hv h2
+
+/-- … and the two list rules coincide exactly when no invalid entry follows the first match:
+    Go stops at the first match, OpenSSH keeps validating to the end -/
+theorem go_eq_ossh (es : List Entry2) (hag : ∀ e ∈ es, e.agree = true) :
+    (matchEntries (es.map (·.go)) = true ↔ osshList (es.map (·.ossh)) = .accept) ↔
+      ¬ (matchEntries (es.map (·.go)) = true ∧ .invalid ∈ es.map (·.ossh)) := by
+  constructor
+  · intro h ⟨hg, hinv⟩
+    have := (ossh_accepts_iff _).mp (h.mp hg)
+    exact this.1 _ hinv rfl
+  · intro h
+    constructor
+    · intro hg
+      rw [ossh_accepts_iff]
+      refine ⟨fun e he hinv => h ⟨hg, hinv ▸ he⟩, ?_⟩
+      obtain ⟨pre, x, post, heq, hm, _⟩ := (matchEntries_spec _).mp hg
+      have hx : x ∈ es.map (·.go) := by rw [heq]; simp
+      rw [List.mem_map] at hx ⊢
+      obtain ⟨e, he, rfl⟩ := hx
+      have := hag e he
+      simp [Entry2.agree, hm] at this
+      exact ⟨e, he, this.1⟩
+    · exact ossh_accept_imp_go es hag
+
+/-- the divergence, concretely: "10.1.2.3,garbage" from 10.1.2.3 — Go admits, OpenSSH treats the
+    option as invalid and denies -/
+example : matchEntries [.ipEq, .bad] = true ∧ osshList [.matches, .invalid] = .error := by decide
+
 /-! ## the last PublicKeyCallback invocation -/
 
 /-- the last PublicKeyCallback invocation recorded in a log -/
